@@ -176,9 +176,12 @@ def handler : Handler := fun scn =>
     -- the claim under reconciliation becomes the current one
     let s := if w == 0 then s else swap s (w - 1)
     let meStr := s.me.ns ++ "/" ++ s.me.name
-    let envs := (arr rj "env").map fun e => (int e "after", envFor w e)
+    let envs := ((arr rj "env").filter fun e => str e "act" != "claimCreate").map fun e => (int e "after", envFor w e)
     let envAt (k : Nat) : List EnvAct := (envs.filter fun p => p.1 == (k : Int)).map (·.2)
-    let s := ((envs.filter fun p => p.1 < 0).map (·.2)).foldl applyEnv s
+    -- scripted actions before the reconcile starts; `claimCreate` (a second incarnation of the claim) is not an
+    -- `EnvAct`: it is outside the environment of the theorems (`recreateClaim`)
+    let s := ((arr rj "env").filter fun e => int e "after" < 0).foldl
+      (fun s e => if str e "act" == "claimCreate" then recreateClaim s else applyEnv s (envFor w e)) s
     let faults := (arr rj "faults").map fun f => (nat f "k", str f "o")
     -- the first fault listed for an index wins on the Go side only if it is the last map write; the harness
     -- builds a map, so the last one wins
@@ -189,8 +192,10 @@ def handler : Handler := fun scn =>
     let isWant (c : Claim) : Bool := (xrefStr c.ref, c.fin, c.deleting) == want
     let (pick, bad) : Option Nat × Option String :=
       if bool rd "found" && bool rd "stale" then
-        match (s.hist.drop 1).findIdx? isWant with
-        | some i => (some (i + 1), bad)
+        -- a claim that is gone: its last stored version is a version the cache may serve, too
+        let skip := if s.claim.isSome then 1 else 0
+        match (s.hist.drop skip).findIdx? isWant with
+        | some i => (some (i + skip), bad)
         | none => (none, bad.or (some "the cache served a stale claim version the model's history does not contain"))
       else (none, bad)
     -- XR reads in order of occurrence: with a reference, the Get of Reconcile (site 0) and the Get of the
@@ -228,9 +233,13 @@ def handler : Handler := fun scn =>
     let s' := if w == 0 then s' else swap s' (w - 1)
     (s', outs ++ [o], bad)
   let (sf, outs, bad) := recs.foldl step (s0, [], none)
+  -- a scenario in which the claim is created again under its name is outside the environment of the theorems
+  -- (two incarnations): the model-side verdict is not evaluated there (correspondence + direct monitors remain)
+  let recreated := recs.any fun r => (arr r "env").any fun e => str e "act" == "claimCreate"
   match bad with
   | some b => .ok (Json.mkObj [("bad", .str b)], true, "")
   | none =>
+    if recreated then .ok (Json.mkObj [("recs", Json.arr outs.toArray)], true, "") else
     -- the property from every claim's viewpoint
     let views : List (St × List Name) := (sf, initRefs.headD []) ::
       (List.range sides.length).map fun j => (swap sf j, (initRefs.drop (j + 1)).headD [])
